@@ -6,11 +6,18 @@ Request `<op> <args…> => <implementation output>`, answer `model=<…> holds=<
        model = block partition predicted by Model/Xerial.writeAll (block codec = identity: sizes only);
        holds = the stream parses under Spec/Xerial.parse into that many blocks (framed) resp. the
        implementation produced exactly one block of the payload's size (unframed).
+  xwf <len> <script n:e,…> <stream hex> => <block sizes csv>   io.Copy into the framed writer (ReadFrom) from a scripted
+       source (Model/Source): model = block partition of Model/XerialIO.readFromLoop for that script
   xr <framed> <block sizes csv> <read buffer sizes csv> => <Read return values csv>
        model = Model/Xerial.readSizes on the described reference stream; holds = equal ∧ the sizes add up.
+  xrcut <block sizes csv> <m> <kind> <read buffer sizes csv> => <Read return values csv, a second 0 for an error>
+       framed reference stream that ends early after m blocks (kind 0: on the boundary, 1..3: inside the length field,
+       4: right after it, 5: inside the block): model = Model/Xerial.readSizes on the cut stream; holds = equal ∧ the model's output is a
+       prefix of the payload (Props/C16 truncated_stream_prefix on the instance)
   rt|out|in <codec> <kind> <len:crc> [..] => ok <len:crc>      model = "ok <len:crc>" (losslessness / interop)
   hist <codec> <what> <len:crc payload> <len:crc stream> => ok <len:crc> <len:crc>
   ovl <codec> <what> <p1> <p2> <p3> => ok <p1> <p2> <p3> <p1> <p2> <p3>   three writers, then three readers, open at once
+  cfg <spec> round<i> <len:crc payload> <len:crc pristine stream> => ok <payload> <stream>   configurations of one kind interleaved
   srcerr <codec> <len:crc> cut<k>/<n> => sound      the source fails after k bytes: an error or the whole payload
   wrerr <codec> <len:crc> cut<k>/<n> => sound       the sink fails after k bytes: Write or Close reports an error
   stress <codec> <G> => ok <G> none                  tight open/close loops on many goroutines
@@ -18,6 +25,7 @@ Request `<op> <args…> => <implementation output>`, answer `model=<…> holds=<
 -/
 import KafkaVerif.Base.Proto
 import KafkaVerif.Model.Xerial
+import KafkaVerif.Model.XerialIO
 
 namespace KV.OracleC16
 open KV KV.RW KV.Model.Xerial
@@ -53,6 +61,22 @@ def step (line : String) : String :=
           else sizes.length == 1 && stream.take 8 != Spec.Xerial.magic
         answer model (model == impl && total && specOk)
       | _, _, _ => "bad-op"
+    | ["xwf", len, script, hx] =>
+      let parseAns (t : String) : Option Model.Source.Ans := match t.splitOn ":" with
+        | [n, e] => n.toNat?.map (fun n => ⟨n, e == "1"⟩)
+        | _ => none
+      let sc : Option (List Model.Source.Ans) := if script == "-" then some [] else (script.splitOn ",").mapM parseAns
+      match len.toNat?, sc, ofHex hx with
+      | some len, some sc, some stream =>
+        let src : Model.Source.Src := ⟨zerosOf len, sc⟩
+        let w := close idCodec (readFromLoop idCodec (Model.Source.fuelFor src) (newWriter true) src).1
+        let sizes := w.blocks.map (·.length)
+        let model := showNats sizes
+        let specOk := match Spec.Xerial.parse stream with
+          | some bs => bs.length == sizes.length && sizes.all (fun n => 0 < n && n ≤ blockCap)
+          | none => false
+        answer model (model == impl && sizes.foldl (· + ·) 0 == len && specOk)
+      | _, _, _ => "bad-op"
     | ["xr", fr, blocks, asked] =>
       match parseNats blocks, parseNats asked with
       | some blocks, some asked =>
@@ -62,6 +86,25 @@ def step (line : String) : String :=
         let model := showNats ns
         answer model (model == impl && ns.foldl (· + ·) 0 == blocks.foldl (· + ·) 0)
       | _, _ => "bad-op"
+    | ["xrcut", blocks, m, kind, asked] =>
+      match parseNats blocks, m.toNat?, kind.toNat?, parseNats asked with
+      | some blocks, some m, some kind, some asked =>
+        -- the identity block codec: a block of n bytes takes 4 + n bytes; `kind` 1..3 = that many bytes of the next
+        -- length field, 4 = the length field and none of the block (reported as a CLEAN end: io.ReadFull answers io.EOF),
+        -- 5 = the length field and a strict non-empty part of the block (an error)
+        -- (kind 5: one byte of the block, which the model makes at least 2 bytes long so that the part is strict)
+        let mblocks := blocks.take m ++ (blocks.drop m).map (fun n => max n 2)
+        let full := Spec.Xerial.frame (mblocks.map zerosOf)
+        let cut := 16 + ((blocks.take m).map (· + 4)).foldl (· + ·) 0 + kind
+        let stream := full.take cut
+        let ns := readSizes idCodec (newReader stream) asked
+        let model := showNats ns
+        -- Props/C16 truncated_stream_prefix on the instance: the bytes delivered are a prefix of the payload
+        let out := Model.Xerial.readAllOut idCodec (newReader stream) asked
+        let pre := out == ((mblocks.map zerosOf).flatten).take out.length
+        answer model (model == impl && pre)
+      | _, _, _, _ => "bad-op"
+    | ["cfg", _spec, _round, p, st] => let model := s!"ok {p} {st}"; answer model (model == impl)
     | ["srcerr", _codec, _sum, _cut] => answer "sound" (impl == "sound")
     | ["wrerr", _codec, _sum, _cut] => answer "sound" (impl == "sound")
     | ["stress", _codec, g] =>
